@@ -82,13 +82,20 @@ S.update(S2)
 for key in sys.argv[1:]:
     p, n = key.split('-')
     src = '/tmp/wt_%s/mutants/%s' % (p, n)
-    if int(n) > 3:
-        src = '/tmp/wt_%s/mutants/%d' % (p, int(n) - 3)  # second wave: delivered as 1..3, kept as 4..6
+    if int(n) > 6:
+        src = '/tmp/wt_%s/mutants/%d' % (p, int(n) - 6)  # third wave: delivered as 1..3, kept as 7..9
+    elif int(n) > 3:
+        src = '/tmp/wave2_%s/%d' % (p, int(n) - 3)  # second wave: delivered as 1..3, kept as 4..6
     dst = '/verif/seeded/%s' % key
     os.makedirs(dst, exist_ok=True)
     for f in ('patch.diff', 'demo_test.go', 'notes.md'):
         shutil.copy(os.path.join(src, f), os.path.join(dst, f))
     what, needs = S.get(key, ("", ""))
+    if not what:
+        # no hand-written summary: take the first descriptive lines of the sub-agent's notes
+        lines = [l.strip() for l in open(os.path.join(src, 'notes.md'), encoding='utf-8', errors='replace') if l.strip() and not l.startswith('#')]
+        what = ' '.join(lines[:3])[:400]
+        needs = "see notes.md" 
     meta = {"property": p, "source": "independent sub-agent, given only the property text and a scratch worktree",
             "change": what, "needs_to_manifest": needs,
             "confirmed": "selftest/confirm.sh %s: demo passes on the unchanged tree; with the patch the package compiles, the pinned suite passes and the demo fails" % dst,
